@@ -41,7 +41,12 @@ def accepted_set(db, f):
                 state["S"] = ev.sat(e["args"][0], state["S"])
                 state["n"] += 1
             elif e["k"] == "bin" and e["op"] == "=" and e["l"]["k"] == "ref" and e["l"]["d"] == tovar:
-                fin.append(ev.ev(e["r"], state["S"]))
+                try:
+                    fin.append(ev.ev(e["r"], state["S"]))
+                except Inconclusive as ex:
+                    # the stored value cannot be tabulated (e.g. a narrowing cast wrapping over 2^32 periods because a guard is missing):
+                    # the accepted set alone may already decide the instance
+                    fin.append(("untabulated", str(ex)))
             elif e["k"] in ("cast", "icast") and e["ck"] == "ToVoid":
                 pass
             else:
@@ -62,6 +67,61 @@ def accepted_set(db, f):
     return state["S"], fin, state["n"]
 
 
+def check_guards(rep, db, floor, pairs_seen):
+    """R-C06-guard / R-C06-float-enum over every instantiation of convert_type_fundamental in db"""
+    fns = db.insts("rlbox::detail::convert_type_fundamental")
+    rep.require(len(fns) >= floor, "%s: only %d instantiations of convert_type_fundamental (floor %d)" % (db.label, len(fns), floor))
+    n_int = 0
+    for f in fns:
+        To = f["params"][0]["t"] or {}
+        Fr = f["params"][1]["t"] or {}
+        inst = "%s <- %s" % (To.get("u"), Fr.get("u"))
+        if To.get("k") in ("int", "bool") and Fr.get("k") in ("int", "bool"):
+            n_int += 1
+            pairs_seen.add((To.get("u"), Fr.get("u")))
+            try:
+                A, fin, nchk = accepted_set(db, f)
+            except Inconclusive as ex:
+                rep.inconclusive("R-C06-guard", site(f), str(ex), inst)
+                continue
+            rf, rt = trange(Fr), trange(To)
+            want = merge([(max(rf[0], rt[0]), min(rf[1], rt[1]))])
+            if len(fin) != 1:
+                rep.violation("R-C06-guard", site(f), "expected exactly one store to the destination, found %d" % len(fin), f["loc"], inst)
+                continue
+            if isinstance(fin[0], tuple) and fin[0][:1] == ("untabulated",):
+                extra = complement(want, A)
+                if extra:
+                    rep.violation("R-C06-guard", site(f), "silent change of value: source values %s pass all checks but are not representable in %s (e.g. %d)" % (extra[:3], To.get("u"), extra[0][0]), f["loc"], inst,
+                                  {"accepted": A, "representable": want})
+                else:
+                    rep.inconclusive("R-C06-guard", site(f), fin[0][1], inst)
+                continue
+            ident = all((a == 1 and b == 0) or (a == 0 and lo == hi == b) for lo, hi, a, b in fin[0])
+            if A == want and ident:
+                rep.ok("R-C06-guard", site(f), "accepted=%s stored=identity checks=%d" % (A, nchk), inst, nontrivial=(nchk > 0 or rf != rt))
+            else:
+                extra = complement(want, A)
+                missing = complement(A, want)
+                if extra or not ident:
+                    bad = extra[0][0] if extra else next(lo for lo, hi, a, b in fin[0] if not ((a == 1 and b == 0) or (a == 0 and lo == hi == b)))
+                    what = ("silent change of value: source values %s pass all checks but are not representable in %s (e.g. %d)" % (extra, To.get("u"), bad)) if extra else \
+                           ("the stored value differs from the source on accepted values near %d" % bad)
+                    rule_site = site(f) + (" [-> bool from 8-bit]" if To.get("k") == "bool" and Fr.get("w") == 8 and Fr.get("k") != "bool" else "")
+                    rep.violation("R-C06-guard", rule_site, what, f["loc"], inst, {"accepted": A, "representable": want})
+                if missing:
+                    rep.violation("R-C06-guard", site(f) + " [spurious abort]", "representable source values %s are rejected" % missing, f["loc"], inst,
+                                  {"accepted": A, "representable": want})
+        elif To.get("k") == "float" or Fr.get("k") == "float" or To.get("k") == "enum" or Fr.get("k") == "enum":
+            # direct assignment only between float types / the same enum type
+            ok = (To.get("k") == Fr.get("k")) and (To.get("k") == "float" or To.get("u") == Fr.get("u"))
+            if ok:
+                rep.ok("R-C06-float-enum", site(f), "same kind", inst, nontrivial=False)
+            else:
+                rep.violation("R-C06-float-enum", site(f), "conversion between %s and %s instantiates without a check" % (Fr.get("u"), To.get("u")), f["loc"], inst)
+    rep.require(n_int >= floor, "%s: only %d integer pairs analysed (floor %d)" % (db.label, n_int, floor))
+
+
 def run(rep, tier):
     rep.rule("R-C06-guard", "for every ordered pair (To,From) of integer types the set A of source values that pass every abort check before "
              "`to = cast(from)` in convert_type_fundamental<To,From> equals range(From) ∩ range(To) and the stored value equals the source on A "
@@ -74,49 +134,7 @@ def run(rep, tier):
     pairs_seen = set()
     for db in dbs:
         rep.units.append(db.label)
-        fns = db.insts("rlbox::detail::convert_type_fundamental")
-        rep.require(len(fns) >= 225, "%s: only %d instantiations of convert_type_fundamental (floor 225)" % (db.label, len(fns)))
-        n_int = 0
-        for f in fns:
-            To = f["params"][0]["t"] or {}
-            Fr = f["params"][1]["t"] or {}
-            inst = "%s <- %s" % (To.get("u"), Fr.get("u"))
-            if To.get("k") in ("int", "bool") and Fr.get("k") in ("int", "bool"):
-                n_int += 1
-                pairs_seen.add((To.get("u"), Fr.get("u")))
-                try:
-                    A, fin, nchk = accepted_set(db, f)
-                except Inconclusive as ex:
-                    rep.inconclusive("R-C06-guard", site(f), str(ex), inst)
-                    continue
-                rf, rt = trange(Fr), trange(To)
-                want = merge([(max(rf[0], rt[0]), min(rf[1], rt[1]))])
-                if len(fin) != 1:
-                    rep.violation("R-C06-guard", site(f), "expected exactly one store to the destination, found %d" % len(fin), f["loc"], inst)
-                    continue
-                ident = all((a == 1 and b == 0) or (a == 0 and lo == hi == b) for lo, hi, a, b in fin[0])
-                if A == want and ident:
-                    rep.ok("R-C06-guard", site(f), "accepted=%s stored=identity checks=%d" % (A, nchk), inst, nontrivial=(nchk > 0 or rf != rt))
-                else:
-                    extra = complement(want, A)
-                    missing = complement(A, want)
-                    if extra or not ident:
-                        bad = extra[0][0] if extra else next(lo for lo, hi, a, b in fin[0] if not ((a == 1 and b == 0) or (a == 0 and lo == hi == b)))
-                        what = ("silent change of value: source values %s pass all checks but are not representable in %s (e.g. %d)" % (extra, To.get("u"), bad)) if extra else \
-                               ("the stored value differs from the source on accepted values near %d" % bad)
-                        rule_site = site(f) + (" [-> bool from 8-bit]" if To.get("k") == "bool" and Fr.get("w") == 8 and Fr.get("k") != "bool" else "")
-                        rep.violation("R-C06-guard", rule_site, what, f["loc"], inst, {"accepted": A, "representable": want})
-                    if missing:
-                        rep.violation("R-C06-guard", site(f) + " [spurious abort]", "representable source values %s are rejected" % missing, f["loc"], inst,
-                                      {"accepted": A, "representable": want})
-            elif To.get("k") == "float" or Fr.get("k") == "float" or To.get("k") == "enum" or Fr.get("k") == "enum":
-                # direct assignment only between float types / the same enum type
-                ok = (To.get("k") == Fr.get("k")) and (To.get("k") == "float" or To.get("u") == Fr.get("u"))
-                if ok:
-                    rep.ok("R-C06-float-enum", site(f), "same kind", inst, nontrivial=False)
-                else:
-                    rep.violation("R-C06-float-enum", site(f), "conversion between %s and %s instantiates without a check" % (Fr.get("u"), To.get("u")), f["loc"], inst)
-        rep.require(n_int >= 225, "%s: only %d integer pairs analysed" % (db.label, n_int))
+        check_guards(rep, db, 225, pairs_seen)
         check_arrays(rep, db)
     rep.extra["integer_pairs"] = len(pairs_seen)
     rep.rule("R-C06-route", "in the boundary functions (tainted_volatile load/store, tainted<->sandbox conversions, invoke arguments/results, callback arguments/results, struct converters) every store of an integer value that was read "
@@ -221,6 +239,9 @@ def check_route(rep, dbs):
                     bad = e
                     break
                 cnt += len(converted)
+                if not bad and f["n"].endswith("::sandbox_callback_interceptor") and isinstance(p.retval, tuple) and ops.unchecked_conversion(p, p.retval):
+                    # the value handed back to the sandbox by the callback interceptor
+                    bad = Ev("STORE", ("var", 0, "value returned to the sandbox"), p.retval, loc=f["loc"])
                 if bad:
                     break
             if bad:
